@@ -293,6 +293,22 @@ impl<P: Problem> Condition<P> for WrapCond<P> {
 pub struct CountBody {
     pub log: Arc<Mutex<LoopLog>>,
 }
+/// records the iteration progress and counter visible when it executes
+#[derive(Clone)]
+pub struct ProgressProbe {
+    pub seen: Arc<Mutex<Vec<(f64, u32)>>>,
+}
+impl Serialize for ProgressProbe {
+    fn serialize<S: serde::Serializer>(&self, s: S) -> Result<S::Ok, S::Error> {
+        s.serialize_unit_struct("ProgressProbe")
+    }
+}
+impl<P: Problem> Component<P> for ProgressProbe {
+    fn execute(&self, _p: &P, s: &mut State<P>) -> ExecResult<()> {
+        self.seen.lock().unwrap().push((s.try_get_value::<Progress<ValueOf<Iterations>>>().unwrap_or(f64::NAN), s.try_get_value::<Iterations>().unwrap_or(u32::MAX)));
+        Ok(())
+    }
+}
 impl Serialize for CountBody {
     fn serialize<S: serde::Serializer>(&self, s: S) -> Result<S::Ok, S::Error> {
         s.serialize_unit_struct("CountBody")
@@ -305,26 +321,27 @@ impl<P: Problem> Component<P> for CountBody {
     }
 }
 
-fn check_loop(n: u32) -> Option<(String, String)> {
+fn check_loop(n: u32, empty_body: bool) -> Option<(String, String)> {
     let log = Arc::new(Mutex::new(LoopLog::default()));
     let cond: Box<dyn Condition<TagP>> = Box::new(WrapCond { inner: LessThanN::iterations(n), log: log.clone() });
     let body: Box<dyn Component<TagP>> = Box::new(CountBody { log: log.clone() });
-    let config = Configuration::<TagP>::builder().while_(cond, |b| b.do_(body)).build();
+    // a loop whose body holds no component still tests its condition n+1 times and counts n passes
+    let config = if empty_body { Configuration::<TagP>::builder().while_(cond, |b| b).build() } else { Configuration::<TagP>::builder().while_(cond, |b| b.do_(body)).build() };
     let r = catch(|| {
         config.optimize_with(&TagP, |st| {
             st.insert(crate::engine::tape::scripted_random(0));
             Ok(())
         })
     });
-    let ctx = |w: String| format!("while LessThanN::iterations({}) {{ body }}: {}", n, w);
-    let head = format!("C10 loop n={}", if n == 0 { "0" } else { ">0" });
+    let ctx = |w: String| format!("while LessThanN::iterations({}) {{ {} }}: {}", n, if empty_body { "" } else { "body" }, w);
+    let head = format!("C10 loop{} n={}", if empty_body { " empty-body" } else { "" }, if n == 0 { "0" } else { ">0" });
     let st = match r {
         Err(p) => return Some((format!("{} panic", head), ctx(format!("panicked: {}", p)))),
         Ok(Err(e)) => return Some((format!("{} error", head), ctx(format!("returned Err: {:#}", e)))),
         Ok(Ok(st)) => st,
     };
     let g = log.lock().unwrap();
-    if g.passes != n || g.tests != n + 1 {
+    if (!empty_body && g.passes != n) || g.tests != n + 1 {
         return Some((format!("{} pass-count", head), ctx(format!("{} passes and {} condition tests; expected exactly {} passes and {} tests", g.passes, g.tests, n, n + 1))));
     }
     if st.iterations() != n {
@@ -351,8 +368,10 @@ fn check_nested_loop(n: u32, m: u32, scoped: bool) -> Option<(String, String)> {
     let icond: Box<dyn Condition<TagP>> = Box::new(WrapCond { inner: LessThanN::iterations(m), log: inner.clone() });
     let obody: Box<dyn Component<TagP>> = Box::new(CountBody { log: outer.clone() });
     let ibody: Box<dyn Component<TagP>> = Box::new(CountBody { log: inner.clone() });
+    let seen = Arc::new(Mutex::new(vec![]));
+    let probe: Box<dyn Component<TagP>> = Box::new(ProgressProbe { seen: seen.clone() });
     let config = if scoped {
-        Configuration::<TagP>::builder().while_(ocond, |b| b.scope_(|b| b.while_(icond, |b| b.do_(ibody))).do_(obody)).build()
+        Configuration::<TagP>::builder().while_(ocond, |b| b.scope_(|b| b.while_(icond, |b| b.do_(ibody))).do_(obody).do_(probe)).build()
     } else {
         // a loop in a scope of its own after another loop starts counting at zero as well
         Configuration::<TagP>::builder().while_(ocond, |b| b.do_(obody)).scope_(|b| b.while_(icond, |b| b.do_(ibody))).build()
@@ -383,6 +402,15 @@ fn check_nested_loop(n: u32, m: u32, scoped: bool) -> Option<(String, String)> {
     }
     if o.iterations_seen != (0..=n).collect::<Vec<_>>() {
         return Some((format!("{} counter-sequence", head), ctx(format!("iteration counter seen by the outer/first loop's tests: {:?}", o.iterations_seen))));
+    }
+    if scoped {
+        // after the scoped inner loop the outer loop's progress and counter are what they were at its last test
+        let seen = seen.lock().unwrap();
+        let exp: Vec<(f64, u32)> = (0..n).map(|k| (k as f64 / n as f64, k)).collect();
+        let same = seen.len() == exp.len() && seen.iter().zip(&exp).all(|(a, b)| a.0.to_bits() == b.0.to_bits() && a.1 == b.1);
+        if !same {
+            return Some((format!("{} outer-progress-after-inner-loop", head), ctx(format!("(progress, iteration counter) visible in the outer body after the scoped inner loop: {:?}, expected {:?}", seen, exp))));
+        }
     }
     None
 }
@@ -511,6 +539,66 @@ fn check_optimum(eps: f64, which: u8) -> Option<(String, String)> {
             }
         }
     }
+}
+
+/// One (or two, with different epsilons) OptimumReached conditions, initialised once, evaluated along a
+/// history of best-individual states (the memory is replaced between evaluations): every answer is the
+/// stateless one for the state at that moment.
+fn check_optimum_history(eps: f64, eps2: Option<f64>, hist: &[u8]) -> Option<(String, String)> {
+    let problem = RealP::new(1, -1.0, 2.0, FKind::Shifted, Instr::new());
+    let opt = 0.5;
+    let mut st = state_with::<RealP>(vec![]);
+    st.insert(BestIndividual::<RealP>::new());
+    let mk = |e: f64| OptimumReached::new::<RealP>(e).map_err(|x| format!("{:#}", x));
+    let (c1, c2) = match (mk(eps), eps2.map(mk)) {
+        (Ok(a), None) => (a, None),
+        (Ok(a), Some(Ok(b))) => (a, Some(b)),
+        (Err(e), _) | (_, Some(Err(e))) => return Some(("C10 OptimumReached constructor".into(), e)),
+    };
+    let conds: Vec<(&dyn Condition<RealP>, f64)> = match &c2 {
+        Some(b) => vec![(c1.as_ref(), eps), (b.as_ref(), eps2.unwrap())],
+        None => vec![(c1.as_ref(), eps)],
+    };
+    let init = catch(|| -> ExecResult<()> {
+        for (c, _) in &conds {
+            c.init(&problem, &mut st)?;
+        }
+        for (c, _) in &conds {
+            c.require(&problem, &st.requirements())?;
+        }
+        Ok(())
+    });
+    if !matches!(init, Ok(Ok(()))) {
+        return Some(("C10 OptimumReached history init-failure".into(), format!("epsilons {} / {:?}: {:?}", eps, eps2, init.map(|r| r.map_err(|e| format!("{:#}", e))))));
+    }
+    for (k, which) in hist.iter().enumerate() {
+        let best: Option<f64> = match which {
+            0 => None,
+            1 => Some(opt),
+            2 => Some(opt + 0.75),
+            _ => Some(f64::INFINITY),
+        };
+        let mut b = BestIndividual::<RealP>::new();
+        if let Some(v) = best {
+            b.update(&Individual::new(vec![0.0], so(v)));
+        }
+        st.insert(b);
+        for (c, e) in &conds {
+            let exp = match best {
+                Some(v) => v - opt <= *e,
+                None => false,
+            };
+            let got = catch(|| c.evaluate(&problem, &mut st));
+            let ok = matches!(&got, Ok(Ok(r)) if *r == exp);
+            if !ok {
+                return Some((
+                    format!("C10 OptimumReached history {}", if conds.len() > 1 { "two-conditions" } else { "one-condition" }),
+                    format!("OptimumReached(epsilon = {}) (conditions with epsilons {} / {:?} initialised once), best-value history {:?} (0 none, 1 optimum, 2 optimum+0.75, 3 +inf): evaluation {} gave {:?}, expected {}", e, eps, eps2, hist, k, got.map(|r| r.map_err(|x| format!("{:#}", x))), exp),
+                ));
+            }
+        }
+    }
+    None
 }
 
 fn check_change_of(checker: u8, hist: &[u32]) -> Option<(String, String)> {
@@ -651,8 +739,10 @@ pub fn run(rep: &mut Report) {
         p.traces += 1;
         p.states += 1;
         p.outcome(format!("loop:{}", n));
-        if let Some((s, d)) = check_loop(n) {
-            p.violate(s, d, json!({"kind": "loop", "n": n}));
+        for empty in [false, true] {
+            if let Some((s, d)) = check_loop(n, empty) {
+                p.violate(s, d, json!({"kind": "loop", "n": n, "empty": empty}));
+            }
         }
     }
     for n2 in -4..=4i32 {
@@ -702,6 +792,20 @@ pub fn run(rep: &mut Report) {
             p.outcome(format!("opt:{}", which));
             if let Some((s, d)) = check_optimum(eps, which) {
                 p.violate(s, d, json!({"kind": "optimum", "eps": eps, "which": which}));
+            }
+        }
+    }
+    let hl = if thorough { 4 } else { 3 };
+    for l in 1..=hl {
+        for h in sequences(4, l) {
+            let hist: Vec<u8> = h.iter().map(|x| *x as u8).collect();
+            for (eps, eps2) in [(0.0, None), (1.0, None), (0.0, Some(1.0)), (1.0, Some(0.0))] {
+                p.transitions += l as u64;
+                p.traces += 1;
+                p.states += 1;
+                if let Some((s, d)) = check_optimum_history(eps, eps2, &hist) {
+                    p.violate(s, d, json!({"kind": "optimum-history", "eps": eps, "eps2": eps2, "hist": hist}));
+                }
             }
         }
     }
@@ -810,10 +914,14 @@ pub fn replay(case: &Value) -> Result<Vec<(String, String)>, String> {
     let u = |k: &str| case[k].as_u64().unwrap_or(0);
     Ok(match case["kind"].as_str().unwrap_or("") {
         "less" => check_less_than(u("lens") as u8, u("n") as u32, u("v") as u32).into_iter().collect(),
-        "loop" => check_loop(u("n") as u32).into_iter().collect(),
+        "loop" => check_loop(u("n") as u32, case["empty"].as_bool().unwrap_or(false)).into_iter().collect(),
         "nested-loop" => check_nested_loop(u("n") as u32, u("m") as u32, case["scoped"].as_bool().unwrap_or(true)).into_iter().collect(),
         "less-signed" => check_less_than_signed(case["n"].as_i64().unwrap_or(0) as i32, case["v"].as_i64().unwrap_or(0) as i32).into_iter().collect(),
         "every" => check_every_n(u("n") as u32, u("v") as u32).into_iter().collect(),
+        "optimum-history" => {
+            let hist: Vec<u8> = case["hist"].as_array().map(|a| a.iter().map(|x| x.as_u64().unwrap_or(0) as u8).collect()).unwrap_or_default();
+            check_optimum_history(case["eps"].as_f64().unwrap_or(0.0), case["eps2"].as_f64(), &hist).into_iter().collect()
+        }
         "optimum" => check_optimum(case["eps"].as_f64().unwrap_or(0.0), u("which") as u8).into_iter().collect(),
         "optimum-neg" => {
             if OptimumReached::new::<RealP>(-0.5).is_ok() || OptimumReached::new::<RealP>(-1e-300).is_ok() {
